@@ -930,6 +930,20 @@ class RRSLRecord:
 
             return struct.pack('=BB', self.flags, self.curr_length) + self.data
 
+        def recorded_length(self):
+            # type: () -> int
+            """
+            The number of bytes this component takes in a Symbolic Link record.
+
+            Parameters:
+             None.
+            Returns:
+             The length of this component including its two byte header.
+            """
+            if self.flags & ((1 << 1) | (1 << 2) | (1 << 3)):
+                return 2
+            return 2 + self.curr_length
+
         def set_continued(self):
             # type: () -> None
             """
@@ -970,18 +984,23 @@ class RRSLRecord:
             return length
 
         @staticmethod
-        def factory(name):
-            # type: (bytes) -> RRSLRecord.Component
+        def factory(name, literal=False):
+            # type: (bytes, bool) -> RRSLRecord.Component
             """
             A static method to create a new, valid Component given a human
             readable name.
 
             Parameters:
              name - The name to create the Component from.
+             literal - Whether the name is a piece of a longer name, so that
+                       '.', '..' and '/' have no special meaning.
             Returns:
              A new Component object representing this name.
             """
-            if name == b'.':
+            if literal:
+                flags = 0
+                length = len(name)
+            elif name == b'.':
                 flags = 1 << 1
                 length = 0
             elif name == b'..':
@@ -1069,23 +1088,27 @@ class RRSLRecord:
 
         self._initialized = True
 
-    def add_component(self, symlink_comp):
-        # type: (bytes) -> None
+    def add_component(self, symlink_comp, literal=False):
+        # type: (bytes, bool) -> None
         """
         Add a new component to this symlink record.
 
         Parameters:
          symlink_comp - The string to add to this symlink record.
+         literal - Whether the string is a piece of a longer name, so that
+                   '.', '..' and '/' have no special meaning.
         Returns:
          Nothing.
         """
         if not self._initialized:
             raise pycdlibexception.PyCdlibInternalError('SL record not initialized')
 
-        if (self.current_length() + RRSLRecord.Component.length(symlink_comp)) > 255:
+        comp = self.Component.factory(symlink_comp, literal)
+
+        if (self.current_length() + comp.recorded_length()) > 255:
             raise pycdlibexception.PyCdlibInvalidInput('Symlink would be longer than 255')
 
-        self.symlink_components.append(self.Component.factory(symlink_comp))
+        self.symlink_components.append(comp)
 
     def current_length(self):
         # type: () -> int
@@ -1100,11 +1123,11 @@ class RRSLRecord:
         if not self._initialized:
             raise pycdlibexception.PyCdlibInternalError('SL record not initialized')
 
-        strlist = []
+        length = RRSLRecord.header_length()
         for comp in self.symlink_components:
-            strlist.append(comp.name())
+            length += comp.recorded_length()
 
-        return RRSLRecord.length(strlist)
+        return length
 
     def record(self):
         # type: () -> bytes
@@ -2796,7 +2819,9 @@ class RockRidge:
                 special = True
                 mincomp = comp
             else:
-                mincomp = b'a'
+                # A piece of a name needs room for at least one of its bytes
+                # (an empty name has none).
+                mincomp = b'a' if comp else b''
 
             offset = 0
             done = False
@@ -2827,20 +2852,22 @@ class RockRidge:
                     length = 0
                     compslice = comp
                 else:
-                    complen = RRSLRecord.Component.length(comp[offset:])
-                    if complen > curr_comp_area_length:
+                    # The rest of this name, or as much of it as fits; what is
+                    # recorded is this many bytes after a two byte header,
+                    # whatever they spell.
+                    length = len(comp) - offset
+                    if length + 2 > curr_comp_area_length:
                         length = curr_comp_area_length - 2
-                    else:
-                        length = complen
+                    complen = length + 2
                     compslice = comp[offset:offset + length]
 
-                curr_sl.add_component(compslice)
+                curr_sl.add_component(compslice, not special)
 
                 if sl_in_dr:
-                    curr_dr_len += RRSLRecord.Component.length(compslice)
+                    curr_dr_len += complen
                 else:
                     if self.dr_entries.ce_record is not None:
-                        self.dr_entries.ce_record.add_record(RRSLRecord.Component.length(compslice))
+                        self.dr_entries.ce_record.add_record(complen)
 
                 offset += length
 
